@@ -36,6 +36,11 @@ OBLIGATIONS.append(dict(name="dir_reader_copy", harness="harness/C19_dirreader.c
     functions=["dir_reader_copy, dir_reader_destroy (lib/sqfs/src/dir_reader.c)"],
     bound="reader with/without SQFS_DIR_READER_DOT_ENTRIES, inode cache empty or populated (symbolic), both release orders; rbtree and metadata readers are identity-tracking contract stubs"))
 
+OBLIGATIONS.append(dict(name="gzip_compressor_copy", harness="harness/C19_gzip.c", sources=[], stubs=["stubs/vp_ctype.c"], included_sources=["lib/sqfs/src/comp/gzip.c"],
+    incdirs=["lib/sqfs/src/comp"], unwind=6, unwindset={"memcmp.0": 80}, leak=True, malloc_fail=True, tiers=["quick", "thorough"], timeout=300,
+    fp_map={"get_configuration": ["gzip_get_configuration"]}, reach=["rejected", "copy_failed", "copied"],
+    functions=["gzip_compressor_create, gzip_create_copy, gzip_destroy, gzip_get_configuration (lib/sqfs/src/comp/gzip.c)"],
+    bound="every configuration (level, window, flags symbolic); zlib replaced by a model that records the initialisation parameters; any allocation / init may fail"))
 ASSUMPTIONS = ["allocation succeeds in these obligations (failure paths belong to C13)", "destroy/copy hooks are the ones of the object's kind (function pointer targets restricted per harness)"]
 OUTSIDE = ["compressor copies against the real codec libraries", "longer operation histories before the copy than the ones listed per obligation"]
 META = dict(
